@@ -102,6 +102,14 @@ func (self SyntaxError) description() string {
 		}
 	}
 
+	/* the position may lie (far) outside of the source */
+	if p > q {
+		p = q
+	}
+	if p < 0 {
+		p = 0
+	}
+
 	/* left and right length */
 	x := clamp_zero(i)
 	y := clamp_zero(q - p - i - 1)
